@@ -7,7 +7,7 @@ class C05(LogCheck):
     vfiles = VFILES + ["Properties/Properties_C05.v"]
     ocaml = OCAML
     corpus = "C05.txt"
-    level_text = ("Twenty theorems proved in Coq for ALL compile-time minima, thresholds, filter expressions (and/or/not/null over any "
+    level_text = ("Twenty-two theorems proved in Coq for ALL compile-time minima, thresholds, filter expressions (and/or/not/null over any "
                   "number of threshold filters, incl. the not<not<F>> specialisation), severities, tags, item lists and sequence "
                   "sizes, over a Gallina model that follows stream.hpp/logger.hpp statement by statement (smart_stream's two "
                   "unique_ptrs, move construction along the << chain, destruction order of the temporaries, null_stream): the "
@@ -16,7 +16,8 @@ class C05(LogCheck):
                   "forms agree; whole programs (named streams with overlapping lifetimes, threshold changes) refine a spec of "
                   "logical streams; records arrive in program order; the filter combinators are the boolean connectives; runtime "
                   "thresholds are keyed by (record type, filter index): configuring one record type's filter changes no statement, "
-                  "stream or getter of a logger over another record type. "
+                  "stream or getter of a logger over another record type; a nested sequence sink delivers exactly like the flat "
+                  "sequence of its leaves (same text to every leaf, declaration order). "
                   "Tie: severity order, both >= comparisons and the storage of the threshold (a static member of severity_filter<Record, N>) are re-read from /repo on every run (Gen/GenSeverity.v, Tie/Tie_C05.v), "
                   "and the extracted model is diffed against a generated C++ program built from the working tree at each of the six "
                   "minima (ASan/UBSan) on the complete space of single statements (thorough) / a deterministic grid (quick) plus "
@@ -24,12 +25,14 @@ class C05(LogCheck):
     level_note = ("trusted: Coq kernel, ExtrOcamlBasic extraction, OCaml compiler, gen/tr_severity.py, the differential harness; "
                   "assumed and only exercised by the driver: C++ temporaries' lifetime and guaranteed copy elision (the number of "
                   "moves per <<), template overload selection (callable vs. value), std::unique_ptr, std::stringstream rendering "
-                  "of numbers (modelled as decimal), std::tuple/initializer-list evaluation order in tuple_foreach; the timestamp "
+                  "of numbers (modelled as decimal), std::tuple/initializer-list evaluation order in tuple_foreach, how a sink member "
+                  "binds the text it is handed (const&, by value, rvalue overload: the model hands every leaf the same text); the timestamp "
                   "attribute is not observed; single thread only (C09 covers the *_mt sinks); correspondence is exhaustive over "
                   "the finite statement space in the thorough tier and sampled for multi-statement programs, not proved")
     rule = ("cases are programs `m<min> op…` over: threshold changes, one-expression statements, named stream objects "
             "(open/put/close in 4 variables) and stream-type queries, for 12 logger types (filter shapes of depth <= 3 over two "
-            "threshold filters and the null filter; 1-3 sequence members; two record types with different attribute sets "
+            "threshold filters and the null filter; sink trees with 1-4 leaves: flat and nested sequences whose leaves take the text by const reference, by value or "
+            "by rvalue overload, the by-value/rvalue/nested member in first, middle and last position; two record types with different attribute sets "
             "sharing the filter indices, one of them without a tag attribute), threshold getters, and cross-record programs that "
             "set one record type's threshold after/before the other's and log on both with severities between the two. quick: every (minimum, logger, relevant threshold "
             "setting, severity, form) with rotating item shapes/tags + all 118 item shapes x forms x tags x severities x minima "
